@@ -334,8 +334,7 @@ class Composite(object):
             if out is None:
                 out = r
                 out['coverage'] = dict(r['coverage'])
-                out['coverage']['by_harness'] = {r['harness']: dict(evaluations=r['coverage']['evaluations'],
-                                                                   input_distribution=r['coverage'].get('input_distribution'))}
+                out['coverage']['by_harness'] = {r['harness']: {k: v for k, v in r['coverage'].items() if k not in ('samples', 'rule')}}
                 continue
             out['findings'] += r['findings']
             out['mismatches'] += r['mismatches']
@@ -346,7 +345,7 @@ class Composite(object):
             c['samples'] = c['samples'] + c2['samples']
             for k, v in c2.get('comparison', {}).items():
                 c['comparison'][k] = c['comparison'].get(k, 0) + v
-            c['by_harness'][r['harness']] = dict(evaluations=c2['evaluations'], input_distribution=c2.get('input_distribution'))
+            c['by_harness'][r['harness']] = {k: v for k, v in c2.items() if k not in ('samples', 'rule')}
             out['harness'] += ' + ' + r['harness']
             out['assumptions'] += r['assumptions']
         return out
